@@ -47,6 +47,7 @@ type c18Scenario struct {
 	NilTr   bool      `json:"client0_has_nil_transport"`
 	Initial []int     `json:"initial_interceptors"`
 	Twin    bool      `json:"two_instances_from_one_slice"`
+	DefTwin bool      `json:"two_default_constructed_instances"`
 	Steps   []c18Step `json:"steps"`
 
 	h      *Hist
@@ -77,6 +78,12 @@ func genC18(t *simrt.Tape, tier string) Scenario {
 	// two SimpleHTTP objects constructed from the same interceptor slice (with spare capacity): what one
 	// instance registers must never show up in the other
 	sc.Twin = t.Bool(1, 4)
+	if sc.Twin && t.Bool(1, 3) {
+		// both objects come from NewSimpleHTTP() (own http.Client each, default transport = the stub)
+		sc.DefTwin = true
+		sc.Initial = nil
+		sc.NilTr = true
+	}
 	maxSteps := 8
 	if tier == "thorough" {
 		maxSteps = 14
@@ -206,7 +213,16 @@ func (sc *c18Scenario) Run(s *simrt.Sim) {
 	shs := []*network.SimpleHTTPDef{sh}
 	apis := []*network.SimpleAPIDef{api}
 	models := [][]int{model}
-	if sc.Twin {
+	if sc.DefTwin {
+		// replace both objects by default-constructed ones; SetClient steps are ignored below
+		sh = network.NewSimpleHTTP()
+		api = network.NewSimpleAPIWithSimpleHTTP("http://c18.example.test", sh)
+		shs, apis = []*network.SimpleHTTPDef{sh}, []*network.SimpleAPIDef{api}
+		sh2 := network.NewSimpleHTTP()
+		shs = append(shs, sh2)
+		apis = append(apis, network.NewSimpleAPIWithSimpleHTTP("http://c18.example.test", sh2))
+		models = append(models, nil)
+	} else if sc.Twin {
 		twinClient := &http.Client{Transport: &c18Stub{id: 50, log: &log, depth: &depth, seen: &seen}}
 		sh2 := network.NewSimpleHTTPWithClientAndInterceptors(twinClient, initial...)
 		shs = append(shs, sh2)
@@ -293,10 +309,16 @@ func (sc *c18Scenario) Run(s *simrt.Sim) {
 			model = nil
 			h.Do("main", "ClearInterceptor", nil, func() (interface{}, error) { sh.ClearInterceptor(); return nil, nil })
 		case "SetClient":
+			if sc.DefTwin {
+				continue
+			}
 			curCli = st.Cli
 			c := clients[st.Cli]
 			h.Do("main", "SetHTTPClient", st.Cli, func() (interface{}, error) { sh.SetHTTPClient(c); return nil, nil })
 		case "SwapTransport":
+			if sc.DefTwin {
+				continue
+			}
 			curCli = st.Cli
 			c := clients[st.Cli]
 			nid := 100 + si
